@@ -525,7 +525,9 @@ def rule_init(chk):
                    detail_bad='%s is not taken from all_group' % nm, detail_ok='all_group.' + nm)
     scm = M.find_func(h, 'setup_compiled_module')
     c = [x for x in M.calls(scm) if M.call_name(x) == 'module.AccelerationEval']
-    chk.decide(bool(c) and len(c[0].args) >= 2 and compact(c[0].args[1]) == 'object.all_group.equations', 'equation-recreation', 'same-list', node=scm,
+    from verif_static import norm as N_
+    ld_scm = N_.local_defs(scm.body)
+    chk.decide(bool(c) and len(c[0].args) >= 2 and compact(N_.inline(c[0].args[1], ld_scm)) == 'self.object.all_group.equations', 'equation-recreation', 'same-list', node=scm,
                file=AH, func='setup_compiled_module', detail_bad='the list passed as `equations` is not all_group.equations (indices would not match)',
                detail_ok='all_group.equations')
     ki = M.find_func(h, 'get_kernel_init')
